@@ -146,6 +146,9 @@ func (s C10) Events(env world.Env, mm mc.Model) []string {
 						add("ChangeOwner:%s:%s:%s:%s:%s", x, path, a, af, n)
 					}
 				}
+				if s.Full { // the new owner given as a plain address instead of the hashed account: the entry then belongs to nobody
+					add("ChangeOwnerPlain:%s:%s:%s:ok:E", x, path, a)
+				}
 				for _, of := range ownerForms {
 					add("AddViewers:%s:%s:%s:%s:S", x, path, a, of)
 					add("AddEditors:%s:%s:%s:%s:S", x, path, a, of)
@@ -343,10 +346,13 @@ func (s C10) Apply(env world.Env, mm mc.Model, ev string) mc.Step {
 			authorised = true
 			delete(want, key)
 		}
-	case "ChangeOwner":
+	case "ChangeOwner", "ChangeOwnerPlain":
 		path := c10Path(p[2])
 		acct := acctField(p[3], p[4])
 		newAcct := ftAcct(w.A(p[5]).Bech)
+		if kind == "ChangeOwnerPlain" {
+			newAcct = w.A(p[5]).Bech
+		}
 		msg = fttypes.NewMsgChangeOwner(x.Bech, path, acct, newAcct)
 		key := path + "/" + ftOwner(path, acct)
 		if f, ok := before[key]; ok && ftOwnerPrincipal(w, f) == p[1] {
